@@ -2,6 +2,7 @@
 conforming to a schema (built independently of d42's own generator), one-step
 perturbations at every depth, the hostile-value zoo.
 """
+import collections
 import datetime
 import decimal
 import enum
@@ -25,7 +26,15 @@ NS = {
     "schema": schema, "optional": optional, "UUID": uuid.UUID, "datetime": datetime,
     "date": datetime.date, "uuid": uuid, "Decimal": decimal.Decimal,
     "Fraction": fractions.Fraction, "float": float, "math": math, "Nil": Nil,
+    "collections": collections,
 }
+
+
+def _late_ns():
+    from d42 import substitute
+    from d42.utils import make_required
+    NS.update(make_required=make_required, substitute=substitute)
+
 
 INTS = [0, 1, -1, 2, 3, 5, 15, 16, 17, 31, 32, 33, 100, -100, 2 ** 63 - 1, 2 ** 63, -(2 ** 63),
         -(2 ** 63) - 1, 2 ** 64, 10 ** 30, -(10 ** 30)]
@@ -105,6 +114,13 @@ def vsrc(v):
         return "[" + ", ".join(vsrc(x) for x in v) + "]"
     if type(v) is dict:
         return "{" + ", ".join(f"{vsrc(k)}: {vsrc(x)}" for k, x in v.items()) + "}"
+    if type(v) is collections.Counter:
+        return "collections.Counter(" + vsrc(dict(v)) + ")"
+    if type(v) is collections.OrderedDict:
+        return "collections.OrderedDict(" + vsrc(dict(v)) + ")"
+    if type(v) is collections.defaultdict and v.default_factory in (int, list, dict, str, None):
+        f = v.default_factory
+        return f"collections.defaultdict({f.__name__ if f else 'None'}, " + vsrc(dict(v)) + ")"
     if isinstance(v, optional):
         return f"optional({vsrc(v.key)})"
     src = getattr(v, "_verif_src", None)
@@ -148,6 +164,7 @@ class _IntColor(enum.IntEnum):
 ZOO_NS = {"_IntSub": _IntSub, "_StrSub": _StrSub, "_FloatSub": _FloatSub, "_ListSub": _ListSub,
           "_DictSub": _DictSub, "_Color": _Color, "_IntColor": _IntColor}
 NS.update(ZOO_NS)
+_late_ns()
 
 _ZOO_SRC = [
     "float('inf')", "float('-inf')", "float('nan')", "10**400", "-10**400", "10**5000", "Decimal('1.5')",
@@ -593,6 +610,12 @@ LEAF_SCHEMAS = [
     "schema.dict({'a': schema.int})", "schema.dict({optional('a'): schema.int})",
     "schema.dict({'a': schema.int, ...: ...})", "schema.dict({...: ...})", "schema.any",
     "schema.any(schema.int, schema.str)", "schema.alias('A', schema.int)",
+    # "enumerations": alternatives that are all constants of one type (a place for fast paths)
+    "schema.any(schema.str('a'), schema.str('b'))", "schema.any(schema.int(1), schema.int(2), schema.int(3))",
+    "schema.any(schema.none, schema.str('a'))", "schema.any(schema.bool(True), schema.bool(False))",
+    "schema.any(schema.float(1.5), schema.float(2.5))", "schema.any(schema.bytes(b'a'), schema.bytes(b'b'))",
+    "schema.any(schema.str('a'))", "schema.list(schema.any(schema.str('a'), schema.str('b')))",
+    "schema.dict({'k': schema.any(schema.str('a'), schema.str('b'))})", "schema.any(schema.list([]), schema.dict({}))",
     "schema.dict({'a': schema.dict({'b': schema.list(schema.float(1.0).precision(1))})})",
 ]
 
@@ -638,6 +661,20 @@ VTWINS = [
     ("schema.list(schema.int.min(1))", "[1, 0, 1, 0]"), ("schema.list(schema.str.len(1))", "['a', 'ab', 'a', 'ab']"),
     ("schema.any(schema.int, schema.float)", "True"), ("schema.any(schema.bool, schema.float)", "1"),
     ("schema.list(schema.none)", "[None, 0, None, False]"), ("schema.list(schema.float.precision(1))", "[1.0, 1, 1.04]"),
+    # dict subclasses whose __missing__ invents members: a missing key is still missing
+    ("schema.dict({'a': schema.int, 'b': schema.int})", "collections.Counter({'a': 1})"),
+    ("schema.dict({'a': schema.int, 'b': schema.int})", "collections.defaultdict(int, {'a': 1})"),
+    ("schema.dict({'a': schema.int, optional('b'): schema.int.min(1)})", "collections.defaultdict(int, {'a': 1})"),
+    ("schema.dict({'a': schema.int, optional('b'): schema.list})", "collections.defaultdict(list, {'a': 1})"),
+    ("schema.dict({'a': schema.int, 'b': schema.int})", "collections.OrderedDict({'b': 2, 'a': 1})"),
+    ("schema.list(schema.dict({'k': schema.int}))", "[collections.Counter(), collections.Counter({'k': 2})]"),
+    ("schema.dict({'a': schema.dict({'x': schema.int, ...: ...})})", "{'a': collections.defaultdict(int)}"),
+    # a bare schema.any (or an alias of it) as an element is an element, not the `...` marker
+    ("schema.list([schema.any])", "[]"), ("schema.list([schema.any])", "[1, 1]"), ("schema.list([schema.any])", "[None]"),
+    ("schema.list([schema.int, schema.any])", "['x', 5]"), ("schema.list([schema.any, schema.int])", "[5]"),
+    ("schema.list([schema.alias('A', schema.any)])", "[]"), ("schema.list([schema.any, schema.any])", "[1]"),
+    ("schema.list([schema.any(schema.any)])", "[]"), ("schema.dict({'a': schema.list([schema.any])})", "{'a': []}"),
+    ("schema.list([schema.any, ...])", "[]"), ("schema.list([..., schema.any])", "[]"),
 ]
 
 UNRELATED = [None, True, 0, 1, -1, 1.5, "", "a", b"a", [], [1], {}, {"a": 1}, UUIDS[0], DATETIMES[0],
